@@ -502,7 +502,7 @@ example : ∃ (Afun : List ℝ → List ℝ) (M : Nat → Nat → ℝ) (dnorm : 
   refine ⟨matvec A, A.f, sqrtNorm, deigh, [1, 0], sqrtNorm_contract, actsAs_matvec A rfl rfl, hH,
     isHermitian_matvec A rfl rfl hH, hAt, ?_⟩
   obtain ⟨⟨alpha, beta, V⟩, hl⟩ := lanczos_isOk (matvec A) (sqrtNorm (𝕜 := ℝ)) (vstart := [1, 0]) (numiter := 1)
-    ((sqrtNorm_contract.pos_iff _).2 ⟨1, by simp, one_ne_zero⟩) (by omega)
+    ((sqrtNorm_contract.pos_iff _).2 ⟨1, by simp, one_ne_zero⟩) (by omega) (by simp)
   have hE' := hAt alpha beta V hl
   obtain ⟨_, _, _, _, hVn⟩ := lanczos_sizes _ _ hl
   unfold eighKrylov
@@ -593,7 +593,7 @@ example : ∃ (Afun : List ℝ → List ℝ) (M : Nat → Nat → ℝ) (dnorm : 
   refine ⟨Afun, M, sqrtNorm, deigh, [1, 0], sqrtNorm_contract, hM, hH, hAt, hEx, ?_, ?_⟩
   all_goals
     obtain ⟨⟨alpha, beta, V⟩, hl⟩ := lanczos_isOk Afun (sqrtNorm (𝕜 := ℝ)) (vstart := [1, 0]) (numiter := 1)
-      ((sqrtNorm_contract.pos_iff _).2 ⟨1, by simp, one_ne_zero⟩) (by omega)
+      ((sqrtNorm_contract.pos_iff _).2 ⟨1, by simp, one_ne_zero⟩) (by omega) (by simp)
     have hE' := hAt alpha beta V hl
     obtain ⟨h1, _, _, _, hVn⟩ := lanczos_sizes _ _ hl
   · unfold eighKrylov
@@ -646,7 +646,7 @@ example : ∃ (Afun : List ℝ → List ℝ) (dnorm : List ℝ → ℝ) (deigh :
   refine ⟨matvec A, sqrtNorm, deigh, fun _ => 1, [1, 0], sqrtNorm_contract,
     isHermitian_matvec A rfl rfl hH, hAt, fun _ => by simp, ?_⟩
   obtain ⟨⟨alpha, beta, V⟩, hl⟩ := lanczos_isOk (matvec A) (sqrtNorm (𝕜 := ℝ)) (vstart := [1, 0]) (numiter := 1)
-    ((sqrtNorm_contract.pos_iff _).2 ⟨1, by simp, one_ne_zero⟩) (by omega)
+    ((sqrtNorm_contract.pos_iff _).2 ⟨1, by simp, one_ne_zero⟩) (by omega) (by simp)
   have hE' := hAt alpha beta V hl
   obtain ⟨h1, _, _, _, hVn⟩ := lanczos_sizes _ _ hl
   unfold expmKrylov
